@@ -91,6 +91,13 @@ class Pair(object):
         return val
 
 
+def _compatible(assume, pa, pb):
+    s = z3.Solver()
+    s.set('timeout', 10000)
+    s.add(*(list(assume) + list(pa.pc) + list(pb.pc)))
+    return s.check() != z3.unsat
+
+
 def _ok_paths(ob, results, assume, v, site, what):
     """raising paths must be infeasible on legal inputs; returns the non-raising ones"""
     ok = []
@@ -121,6 +128,8 @@ def bmc_outputs(ob, pair, K, v, site, reg_init='reset', default_value=0, memkeyB
     from .props.c01 import prove_all
     for pa in oka:
         for pb in okb:
+            if (len(oka) > 1 or len(okb) > 1) and not _compatible(assume, pa, pb):
+                continue        # the two runs took contradictory decisions (e.g. ROM hole vs. no hole): no common input
             goals = []
             for aname in sorted(pair.out_map):
                 aw = A.wirevector_by_name[aname]
@@ -161,6 +170,8 @@ def inductive_step(ob, pair, v, site, memkeyB=None, assume=()):
     from .props.c01 import prove_all
     for pa in oka:
         for pb in okb:
+            if (len(oka) > 1 or len(okb) > 1) and not _compatible(assume, pa, pb):
+                continue        # the two runs took contradictory decisions (e.g. ROM hole vs. no hole): no common input
             goals = []
             for aname in sorted(pair.out_map):
                 aw = A.wirevector_by_name[aname]
